@@ -29,7 +29,7 @@ CFG = {
         "fallback. Guards stated in the theorems: clock readings are int64 values and now+ttl does not overflow (outside this domain "
         "the monitor is not evaluated; the model still follows Go's wrapping and is compared by case_accept); redis agreement needs "
         "0 < ttl <= 9223372036 (nanosecond count fits int64). Not modelled: the value returned together with a not-found error, "
-        "aliasing of the caller's value slice, real redis (a model of the seven commands is trusted; its clock has second resolution), "
+        "caller-side writes into a slice after Set returned (the code retains the caller's slice and hands out its internal slice, so they show through by construction; the harness hands over aliased slices - a Get result stored under another key, one payload for several keys, sub-slices of one arena - but never writes into them, so only the cache's own writes can change a value), real redis (a model of the seven commands is trusted; its clock has second resolution), "
         "redis' own hash-table iteration order (the fake pages in a fixed pseudo-random order). Concurrency: every public method of ttlMemCache is one critical section (lint, checked on every run), so the "
         "sequential theorems over histories are the concurrent ones; racing goroutines are additionally observed and replayed in a witness order "
         "(found by the untrusted Go reference, checked by Coq). The redis adapter's remove-after-get is one GETDEL; its update-ttl is GET followed by "
